@@ -112,6 +112,7 @@ func (c *clientStream) Context() context.Context {
 }
 
 func (c *clientStream) SendMsg(m any) error {
+	m = cloneForReceiver(m)
 	select {
 	case <-c.ctx.Done():
 		return c.doneErr()
@@ -177,6 +178,7 @@ func (s *serverStream) Context() context.Context {
 
 func (s *serverStream) SendMsg(m any) error {
 	s.sendHeaderIfNeeded()
+	m = cloneForReceiver(m)
 	select {
 	case <-s.ctx.Done():
 		return s.doneErr()
@@ -200,6 +202,16 @@ func (s *serverStream) RecvMsg(m any) error {
 func (s *serverStream) sendHeaderIfNeeded() {
 	// ignore error, SendHeader has no side effects if the headers have already been sent
 	_ = s.SendHeader(nil)
+}
+
+// cloneForReceiver copies a message that is about to cross to the other side of the stream.
+// The receiver merges what it is handed into its own message only after SendMsg has returned,
+// when the sender may already be modifying or reusing m.
+func cloneForReceiver(m any) any {
+	if pm, ok := m.(proto.Message); ok && pm != nil {
+		return proto.Clone(pm)
+	}
+	return m
 }
 
 // works like proto.Merge but allows messages with different descriptors by performing a marshal/unmarshal
